@@ -729,6 +729,11 @@ def run(ctx):
         try:
             failed, desc = run_lib(pym, fm, recipe, seed, nops)
         except Exception as e:
+            if 'sparse' in recipe and 'eigensolve' in recipe and 'singular' in str(e):
+                # known finding K02 (C01): sparse eigenvector sensitivities factorise a singular matrix; not a C03 matter
+                pv.setdefault(recipe, dict(histories=0, differing=0)).setdefault('skipped_K02', 0)
+                pv[recipe]['skipped_K02'] += 1
+                continue
             failed, desc = [f'history raised {type(e).__name__}: {str(e)[:200]}'], dict(recipe=recipe, seed=seed, nops=nops)
         ctx.search_evaluations += 1
         d = pv.setdefault(recipe, dict(histories=0, differing=0))
